@@ -67,8 +67,8 @@ func (l Logger) ServeHTTP(w http.ResponseWriter, r *http.Request) (int, error) {
 				status = 0
 			}
 
-			// Write log entries
-			for _, e := range rule.Entries {
+			// Write log entries of every rule the request is in scope of
+			for _, e := range l.entries(preURL.Path) {
 				// Check if there is an exception to prevent log being written
 				if !e.Log.ShouldLog(preURL.Path) {
 					continue
@@ -91,6 +91,19 @@ func (l Logger) ServeHTTP(w http.ResponseWriter, r *http.Request) (int, error) {
 		}
 	}
 	return l.Next.ServeHTTP(w, r)
+}
+
+// entries returns the entries of all rules whose path scope matches
+// path, in the order of the rules, so that a request is logged once
+// by every log it is in scope of and not only by the first.
+func (l Logger) entries(path string) []*Entry {
+	var entries []*Entry
+	for _, rule := range l.Rules {
+		if httpserver.Path(path).Matches(rule.PathScope) {
+			entries = append(entries, rule.Entries...)
+		}
+	}
+	return entries
 }
 
 // Entry represents a log entry under a path scope
